@@ -91,6 +91,26 @@ def register_catalogue():
     _registered = True
 
 
+_ITEMSIZE = {'float64': 8, 'float32': 4, 'int32': 4, 'int64': 8, 'str': 0}
+
+
+def est_nbytes(fieldsets, n: int) -> int:
+    """Model-side estimate of a trajectory's cache footprint (same definition as the
+    documented one: itemsize x 4 per thrust mode x 16 per species x points)."""
+    size = 0
+    for fs in ['base'] + list(fieldsets):
+        for _fname, dims, dt, _req in FIELDS[fs]:
+            k = _ITEMSIZE[dt]
+            if 'M' in dims:
+                k *= 4
+            if 'S' in dims:
+                k *= 16
+            if 'P' in dims:
+                k *= n
+            size += k
+    return size
+
+
 def species_fields(fieldsets) -> list[str]:
     out = []
     for fs in ['base'] + list(fieldsets):
